@@ -262,12 +262,10 @@ macro_rules! size_ops {
                 // page address falls into a pool frame)
                 kani::assume(fa % SIZE == 0 && (via == 2 || fa + SIZE <= BASE));
                 let frame = PhysFrame::<$S>::containing_address(PhysAddr::new(fa));
-                let mut flags = if inst.conc { P | W | (1 << 63) | (1 << 10) } else { any_flags() | P };
-                if via != 0 {
-                    // map_to / identity_map derive the parent flags from the leaf flags: keep those two bits concrete
-                    // (regime R2-: parent flags are concrete per instance)
-                    flags = (flags & !(W | U)) | (inst.pflags & (W | U));
-                }
+                // map_to / identity_map derive the parent flags from the leaf flags, and regime R2- needs concrete parent
+                // flags (a parent entry with symbolic bits makes the next table pointer data-dependent): their instances
+                // use concrete leaf flags; symbolic leaf flags are covered by the map_to_with_table_flags instances
+                let flags = if via != 0 { P | (1 << 63) | (1 << 10) | (inst.pflags & (W | U)) } else if inst.conc { P | W | (1 << 63) | (1 << 10) } else { any_flags() | P };
                 let tr_inpage = LEAF == 1 || inst.conc;
                 let pflags = if via == 0 { (inst.pflags | P) & !PS } else { flags & (P | W | U) };
                 let fail_at: u8 = inst.fail;
